@@ -53,25 +53,29 @@ class _OverlayProbe:
 
 
 def observe(probes, recv):
-    cur = HandlerCollection.current.get()
-    if cur is None:
-        curids = "none"
-    else:
-        curids = []
-        for sel, acc in cur.handler_pairs:
-            owner = "?"
-            for pid, p in probes.items():
-                if any(acc is h for h in p._ol.handlers):
-                    owner = pid
-            curids.append(owner)
-    cnt = {}
-    caps = {}
-    for name, fn in FNS.items():
-        st = getattr(fn, "__ptera_stack__", None)
-        cnt[name] = st.instrument_count if st is not None else 0
-        caps[name] = sum(st.captures.values()) if st is not None else 0
+    """what can be seen after a step: the streams and the code objects (public), and - as long as this tree still has
+    them - ptera's own bookkeeping (handler collection, tooling counts); `internals` says whether the latter could be read"""
+    internals = True
+    curids, cnt, caps = "none", {name: 0 for name in FNS}, {name: 0 for name in FNS}
+    try:
+        cur = HandlerCollection.current.get()
+        if cur is not None:
+            curids = []
+            for sel, acc in cur.handler_pairs:
+                owner = "?"
+                for pid, p in probes.items():
+                    if any(acc is h for h in p._ol.handlers):
+                        owner = pid
+                curids.append(owner)
+        for name, fn in FNS.items():
+            st = getattr(fn, "__ptera_stack__", None)
+            cnt[name] = st.instrument_count if st is not None else 0
+            caps[name] = sum(st.captures.values()) if st is not None else 0
+    except AttributeError:
+        internals = False
+        curids, cnt, caps = "none", {name: 0 for name in FNS}, {name: 0 for name in FNS}
     gp = sorted(pid for pid, p in probes.items() if p in global_probes or (isinstance(p, _OverlayProbe) and pid in ACTIVE_OV))
-    return {"recv": {pid: list(v) for pid, v in recv.items()},
+    return {"recv": {pid: list(v) for pid, v in recv.items()}, "internals": internals,
             "orig": {name: FNS[name].__code__ is ORIG[name] for name in FNS},
             "cur": {"none": curids == "none", "ids": [] if curids == "none" else curids}, "cnt": cnt, "caps": caps, "gp": gp}
 
@@ -155,9 +159,12 @@ def run_case(case):
     for fn in FNS.values():
         st = getattr(fn, "__ptera_stack__", None)
         if st is not None:
-            st.instrument_count = 0
-            st.captures.clear()
-            st._apply(fn)
+            try:
+                st.instrument_count = 0
+                st.captures.clear()
+                st._apply(fn)
+            except AttributeError:
+                pass
     return {"id": case["id"], "steps": steps}
 
 
